@@ -5,6 +5,7 @@ import (
 	"encoding/binary"
 	"fmt"
 	"runtime"
+	"strings"
 	"testing"
 	"time"
 
@@ -730,6 +731,7 @@ func init() {
 		registerReplay("C18/client", func(c coCase) *fail { return runCoClientCase(c, nil) })
 		registerReplay("C18/overlapping-reads", runOverlapCase)
 		registerReplay("C18/held-writes", runHeldWriteCase)
+		registerReplay("C18/client-pairs", runClientPairCase)
 	})
 }
 
@@ -737,6 +739,22 @@ func TestC18(t *testing.T) {
 	h := begin(t, "C18")
 	defer h.Finish()
 	env := h.Env
+	// two replies to one client decoded back to back
+	for rep := 0; rep < env.Pick(16, 320)/env.NShards+1; rep++ {
+		c := clientPairCase{Native: rep%2 == 0}
+		for i := 0; i < 36; i++ {
+			c.Kinds = append(c.Kinds, clientPairKinds[(i+rep+env.Shard)%len(clientPairKinds)])
+		}
+		f := runClientPairCase(c)
+		h.Case(evid.HashJSON(c)+uint64(rep*64+env.Shard), true, "client:two-replies-back-to-back")
+		if f != nil && strings.HasPrefix(f.Sig, "harness-") {
+			t.Errorf("HARNESS-ERROR %s", f.Msg)
+			continue
+		}
+		if h.report("client-pairs", f, c) {
+			return
+		}
+	}
 	// deterministic long -> short -> empty -> long ladders for every kind
 	if env.Shard == 0 {
 		for _, k := range coKinds {
